@@ -319,6 +319,10 @@ func ruleC07Encode(rule string) func(p *Prog, r *Result) {
 				if who[caller] {
 					continue
 				}
+				// a helper of the encoder family: reachable only through the validating entry point
+				if gate := p.Func("bkl.process2Encode"); gate != nil && p.OnlyThrough(topFunc(e.Caller), gate) {
+					continue
+				}
 				r.Fail(rule, caller+" / calls "+callee+" directly", p.InstrPos(e.Site), "an encoder is reached without passing process2Encode, which is where the evaluated input is validated: an unresolved $required or stray directive inside the encoded subtree disappears into the encoded text")
 			}
 			if n > 0 {
